@@ -167,3 +167,28 @@ Proof.
   - rewrite app_nil_r. reflexivity.
   - apply member_comm.
 Qed.
+
+(* ---------- the keys of the setmap are the specification's platform sets ---------- *)
+Lemma dedup_In x l : In x (dedup l) <-> In x l.
+Proof.
+  induction l as [|y r IH]; cbn [dedup]; [reflexivity|].
+  destruct (existsb (String.eqb y) r) eqn:E.
+  - rewrite IH. split; [cbn; auto|]. intros [<-|H]; [|exact H].
+    apply existsb_exists in E. destruct E as (z & Hz & Ez). apply String.eqb_eq in Ez. subst z. exact Hz.
+  - cbn [In]. rewrite IH. reflexivity.
+Qed.
+Lemma plats_of_In names am x n : In n (plats_of names am x) <-> In n names /\ In (n, x) am.
+Proof. unfold plats_of. rewrite filter_In, mem_triple_In. reflexivity. Qed.
+
+Theorem keys_are_spec fs fuel root xs ts w cfg :
+  fs_wf fs -> accepted_S fs fuel cfg ->
+  exists am sm, analyse fs fuel root xs ts w cfg = Ok (am, sm) /\
+    (forall n x, In n (plats_of (names_of cfg) am x) <-> uses_S fs fuel cfg n x) /\
+    (forall k, get k sm = count (names_of cfg) w am (member_of root (effective xs ts)) k fs).
+Proof.
+  intros Hwf Hacc. destruct (union_S_cb fs fuel (member_of root (effective xs ts)) cfg Hwf Hacc) as (am & E & Hin).
+  exists am, (setmap_M (names_of cfg) w (member_of root (effective xs ts)) am fs).
+  split; [unfold analyse; rewrite E; reflexivity|]. split; [|intros k; apply row_is_count].
+  intros n x. rewrite plats_of_In, Hin. split; [tauto|]. intros H. split; [|exact H].
+  destruct H as (es & e & r & Hn & _). unfold names_of. apply dedup_In. apply in_map_iff. exists (n, es). auto.
+Qed.
